@@ -35,6 +35,11 @@ def rand_entry(rng):
     if e >= 2**62:
         e = 1
     vtext = rng.choice(renderings(rng, e, up, rv))
+    if rng.random() < 0.25:
+        # re-uploads with an epoch bump (and back): the same upstream-revision text with several epochs in one changelog
+        e, up, rv = rng.choice([0, 0, 1, 2, 7]), rng.choice([b"3.1", b"2.0~rc1"]), rng.choice([b"1", b""])
+        body_ = up + (b"-" + rv if rv else b"")
+        vtext = body_ if e == 0 and rng.random() < 0.7 else str(e).encode() + b":" + body_
     args = {}
     for _ in range(rng.randrange(1, 4)):
         args[rng.choice([b"urgency", b"binary-only", b"x-opt", b"a", b"Urgency", b"X-Opt"])] = rng.choice([b"low", b"medium", b"yes", b"high (security)", b"1", b"HIGH", b"Medium", b"YES", b"Mixed-Case_9"])
